@@ -42,6 +42,7 @@ type Finding struct {
 	Witness  string
 }
 
+var loopOrdRe = regexp.MustCompile(`^loop\d+:`)
 var findingRe = regexp.MustCompile(`^(finding|fixed):\s+property=(C\d+)\s+(?:commit=(\S+)\s+)?obligation=(\S+)\s+(?:witness=(\S+)\s+)?"(.*)"\s*$`)
 
 func loadFindings(path string) ([]Finding, error) {
@@ -133,6 +134,13 @@ func (fc *FuncContract) mentions(prop string) bool {
 	for _, c := range fc.Lemmas {
 		if hasProp(c.Props, prop) {
 			return true
+		}
+	}
+	for _, cs := range fc.LoopsByText {
+		for _, c := range cs {
+			if hasProp(c.Props, prop) {
+				return true
+			}
 		}
 	}
 	for _, cs := range fc.CallSites {
@@ -437,6 +445,26 @@ func cmdCheck(args []string) {
 			}
 		}
 	}
+	// every obligation name the unchanged tree is known to have, over all properties (see mayAssume)
+	w.knownNames = map[string]bool{}
+	if files, err := filepath.Glob(filepath.Join(*verif, "ledger", "C*.json")); err == nil {
+		for _, lf := range files {
+			data, err := os.ReadFile(lf)
+			if err != nil {
+				continue
+			}
+			var l Ledger
+			if json.Unmarshal(data, &l) != nil {
+				continue
+			}
+			for _, o := range l.Obligations {
+				w.knownNames[o.Name] = true
+			}
+			for _, n := range l.Undecided {
+				w.knownNames[n] = true
+			}
+		}
+	}
 	dir, _ := os.MkdirTemp("", "govc")
 	defer os.RemoveAll(dir)
 	ro := w.runPropertySkip(*prop, tmo, dir, only, shortT, skip)
@@ -484,10 +512,38 @@ func cmdCheck(args []string) {
 		}
 		slow = append(slow, map[string]interface{}{"name": n, "secs": round3(r.MaxSecs)})
 	}
+	// a ledger obligation that is not generated any more: if it comes from a contract clause with a
+	// stable name (postcondition, loop clause, call-site assertion, lemma) and its function still
+	// exists, the clause could not be stated on the changed code (an event it counts is gone, a
+	// loop it talks about was removed, ...) -- that is a proved obligation lost, reported like one
+	// that fails; everything else (names carrying source text, functions that are gone) is only
+	// listed as unattached.
+	funcExists := map[string]bool{}
+	for _, f := range w.findFuncs("") {
+		funcExists[funcKey(f)] = true
+	}
+	var lost []string
 	for n := range inLedger {
 		if _, ok := ro.results[n]; !ok {
-			unattached = append(unattached, n)
+			parts := strings.SplitN(n, "#", 3)
+			stable := len(parts) == 3 && funcExists[parts[0]] && !strings.Contains(parts[2], "@") &&
+				(parts[1] == "ensures" || parts[1] == "lemma" || parts[1] == "callsite" || parts[1] == "loop-exit" || strings.HasPrefix(parts[1], "invariant-"))
+			if stable && loopOrdRe.MatchString(parts[2]) {
+				stable = false // named by a loop ordinal: shifts when another loop is added
+			}
+			if stable {
+				lost = append(lost, n)
+			} else {
+				unattached = append(unattached, n)
+			}
 		}
+	}
+	sort.Strings(lost)
+	for _, n := range lost {
+		violations++
+		r := &NamedResult{Name: n, Kind: "not-generated", Status: "not-generated"}
+		path := writeReplay(replayDir, *prop, r, w)
+		fmt.Printf("VIOLATION property=%s replay=%s obligation=%s status=not-generated no-failing-input-found\n", *prop, path, n)
 	}
 	sort.Strings(unattached)
 	for _, n := range unattached {
